@@ -281,38 +281,18 @@ func runC10(c *core.Ctx) {
 	}
 }
 
+const nestedEv = -7 // published from inside an OnPubTimeout callback in some scenarios
+
 func c10stable(c *core.Ctx) {
 	r := c.R
+	var nestedFired atomic.Bool
 	variant := r.Intn(6)
 	timeoutOn := r.Chance(2, 5)
 	run := &psRun{ps: &chans.PubSub[int]{}}
 	var timeout time.Duration
-	if timeoutOn {
-		timeout = time.Duration(r.Range(200, 2000)) * time.Microsecond
-		if r.Chance(1, 6) {
-			// positive but tiny (1 ns .. 199 us): still a timeout, never "no limit"
-			timeout = time.Duration(r.Range(1, 199000)) * time.Nanosecond
-			if r.Bool() {
-				timeout = time.Duration(r.Range(1, 999)) * time.Nanosecond
-			}
-		}
-		run.ps.PubTimeoutAfter = timeout
-		run.ps.OnPubTimeout = func(ev int) {
-			st := run.clk.Add(1)
-			run.tmu.Lock()
-			run.timeouts = append(run.timeouts, struct {
-				ev    int
-				stamp int64
-			}{ev, st})
-			run.tmu.Unlock()
-			run.tcount.Add(1)
-		}
-	}
-	if r.Chance(1, 3) {
-		run.ps.DefaultBuffer = r.Range(1, 3)
-	}
 	// in 1 scenario of 10 the PubSub has a past: 300 subscriptions that came and went
-	// one after the other (counters and tables that only grow, or wrap, start here)
+	// one after the other (counters and tables that only grow, or wrap, start here);
+	// this happens before any timeout is configured, so every PubSync below delivers
 	if r.Chance(1, 10) {
 		for i := 0; i < 300; i++ {
 			ch := run.ps.SubBuf(1)
@@ -333,6 +313,41 @@ func c10stable(c *core.Ctx) {
 			}
 		}
 		c.Count("stable_with_sub_unsub_storm_before", 1)
+	}
+	if timeoutOn {
+		timeout = time.Duration(r.Range(200, 2000)) * time.Microsecond
+		if r.Chance(1, 6) {
+			// positive but tiny (1 ns .. 199 us): still a timeout, never "no limit"
+			timeout = time.Duration(r.Range(1, 199000)) * time.Nanosecond
+			if r.Bool() {
+				timeout = time.Duration(r.Range(1, 999)) * time.Nanosecond
+			}
+		}
+		run.ps.PubTimeoutAfter = timeout
+		// in 1 timeout scenario of 8 the callback itself publishes once on the same PubSub
+		// (a synchronous "retry" of another event): a callback may use the PubSub it is called from
+		nested := r.Chance(1, 8)
+		var nestedDone atomic.Bool
+		run.ps.OnPubTimeout = func(ev int) {
+			fire := nested && ev >= 0 && nestedDone.CompareAndSwap(false, true)
+			if fire {
+				nestedFired.Store(true) // before this timeout is counted (see the quiescence test)
+			}
+			st := run.clk.Add(1)
+			run.tmu.Lock()
+			run.timeouts = append(run.timeouts, struct {
+				ev    int
+				stamp int64
+			}{ev, st})
+			run.tmu.Unlock()
+			run.tcount.Add(1)
+			if fire {
+				run.ps.PubSync(nestedEv)
+			}
+		}
+	}
+	if r.Chance(1, 3) {
+		run.ps.DefaultBuffer = r.Range(1, 3)
 	}
 	nsub := r.Range(0, 4)
 	if r.Chance(1, 12) {
@@ -497,7 +512,17 @@ func c10stable(c *core.Ctx) {
 			time.Sleep(3*timeout + 2*time.Millisecond)
 		}
 		releaseAll()
-		ok := waitUntil(func() bool { return run.acks.Load()+run.tcount.Load() >= expected }, 30*time.Second)
+		// the pairs of an event published from inside the callback count too; the flag is
+		// set before the firing timeout is counted, so reading it after the counts is safe
+		done := func() bool {
+			n := run.acks.Load() + run.tcount.Load()
+			want := expected
+			if nestedFired.Load() {
+				want += int64(nsub)
+			}
+			return n >= want
+		}
+		ok := waitUntil(done, 30*time.Second)
 		if !ok {
 			// loss detection: no library goroutine left, every channel empty, still short
 			quiet := waitUntil(func() bool { return runtime.NumGoroutine() <= baseline }, 5*time.Second)
@@ -507,7 +532,7 @@ func c10stable(c *core.Ctx) {
 					empty = false
 				}
 			}
-			if quiet && empty && run.acks.Load()+run.tcount.Load() < expected {
+			if quiet && empty && !done() {
 				extra["acks"], extra["timeouts"] = run.acks.Load(), run.tcount.Load()
 				c.Violate(vname+":lost-event", fmt.Sprintf("%s: every send goroutine has finished and all channels are empty, but only %d deliveries + %d timeouts were observed for %d (event,subscriber) pairs", vname, run.acks.Load(), run.tcount.Load(), expected), extra)
 				return
@@ -606,6 +631,8 @@ func c10stable(c *core.Ctx) {
 	// per-event accounting
 	deliv := map[int]int{}
 	extraDelivered := 0
+	nestedDelivered := 0
+	nestedSeen := map[int]bool{}
 	for si, s := range subs {
 		seen := map[int]bool{}
 		last := map[int]int{}
@@ -615,6 +642,15 @@ func c10stable(c *core.Ctx) {
 		for _, v := range gotAll {
 			if v == extraEv && extraRemaining >= 0 {
 				nExtra++
+				continue
+			}
+			if v == nestedEv && nestedFired.Load() {
+				nestedDelivered++
+				if nestedSeen[si] {
+					c.Violate(vname+":duplicate-delivery", fmt.Sprintf("subscriber %d received the event published from inside the OnPubTimeout callback twice", si), extra)
+					return
+				}
+				nestedSeen[si] = true
 				continue
 			}
 			s.got = append(s.got, v)
@@ -661,6 +697,15 @@ func c10stable(c *core.Ctx) {
 	for _, t := range run.timeouts {
 		touts[t.ev]++
 	}
+	if nestedFired.Load() {
+		// the event published by the callback: one delivery or one timeout per subscriber, like any other
+		if nestedDelivered+touts[nestedEv] != nsub {
+			c.Violate(vname+":delivery-xor-timeout[published from the callback]", fmt.Sprintf("the event published with PubSync from inside an OnPubTimeout callback ended in %d deliveries + %d timeouts for %d subscribers", nestedDelivered, touts[nestedEv], nsub), extra)
+			return
+		}
+		delete(touts, nestedEv)
+		c.Count("stable_callback_published_itself", 1)
+	}
 	if extraRemaining >= 0 {
 		if extraDelivered+touts[extraEv] != extraRemaining || (!timeoutOn && extraDelivered != extraRemaining) {
 			c.Violate("Unsub:other-subscribers-affected", fmt.Sprintf("after %d of %d subscribers had been removed one by one, an event published with PubWait reached %d of the remaining %d (and %d timeouts were reported)", nsub-extraRemaining, nsub, extraDelivered, extraRemaining, touts[extraEv]), extra)
@@ -695,7 +740,7 @@ func c10stable(c *core.Ctx) {
 			}
 		}
 		for _, t := range run.timeouts {
-			if t.ev == extraEv {
+			if t.ev == extraEv || t.ev == nestedEv {
 				continue
 			}
 			if t.stamp > retOf[t.ev] {
@@ -991,8 +1036,66 @@ func c10churn(c *core.Ctx, kind string) {
 
 // c10withonly: WithOnly publishes to the one given subscription only; and a
 // clone must survive the parent's Unsub of that subscription.
+// c10withonlyTimeout: the WithOnly clone inherits the timeout configuration: published
+// through the clone to a target nobody receives from, every pair ends in exactly one
+// OnPubTimeout call (with the right event) - for the Wait and Sync variants by the time
+// the call has returned.
+func c10withonlyTimeout(c *core.Ctx) bool {
+	r := c.R
+	ps := &chans.PubSub[int]{PubTimeoutAfter: time.Duration(r.Range(100, 800)) * time.Microsecond}
+	var mu sync.Mutex
+	var timedOut []int
+	ps.OnPubTimeout = func(ev int) { mu.Lock(); timedOut = append(timedOut, ev); mu.Unlock() }
+	other := ps.SubBuf(4)
+	target := ps.SubBuf(r.Intn(2)) // nobody receives from it
+	only := ps.WithOnly(target)
+	variant := 2 + r.Intn(4) // PubWait, PubSliceWait, PubSync, PubSliceSync: finished when they return
+	evs := []int{1000, 1001, 1002, 1003}[:r.Range(1, 4)]
+	(&psRun{ps: only}).publish(variant, evs)
+	var delivered []int
+drain:
+	for {
+		select {
+		case v := <-target:
+			delivered = append(delivered, v)
+		default:
+			break drain
+		}
+	}
+	mu.Lock()
+	to := append([]int(nil), timedOut...)
+	mu.Unlock()
+	extra := map[string]any{"variant": psVariants[variant], "events": evs, "delivered_into_the_buffer": delivered, "OnPubTimeout_calls": to}
+	seen := map[int]int{}
+	for _, v := range delivered {
+		seen[v]++
+	}
+	for _, v := range to {
+		seen[v]++
+	}
+	for _, e := range evs {
+		if seen[e] != 1 {
+			c.Violate("WithOnly:delivery-xor-timeout", fmt.Sprintf("published through a WithOnly clone (timeout %v, callback set on the parent) to a subscriber nobody receives from: event %d ended in %d deliveries/OnPubTimeout calls, exactly one is required (delivered %v, timed out %v)", ps.PubTimeoutAfter, e, seen[e], delivered, to), extra)
+			return false
+		}
+	}
+	if len(delivered)+len(to) != len(evs) || len(other) != 0 {
+		c.Violate("WithOnly:delivery-xor-timeout", fmt.Sprintf("published %v through a WithOnly clone: delivered %v, timed out %v, %d events leaked to another subscriber", evs, delivered, to, len(other)), extra)
+		return false
+	}
+	ps.UnsubAll()
+	c.Count("withonly_timeout_scenarios", 1)
+	return true
+}
+
 func c10withonly(c *core.Ctx, concurrentUnsub bool) {
 	r := c.R
+	if !concurrentUnsub && r.Chance(1, 3) {
+		if c10withonlyTimeout(c) {
+			c.NonTrivial(core.Mix(c.Seed, 1010))
+		}
+		return
+	}
 	ps := &chans.PubSub[int]{}
 	n := r.Range(2, 4)
 	subs := make([]*psSub, n)
